@@ -56,6 +56,13 @@ def main():
     signal.signal(signal.SIGALRM, on_alarm)
     signal.setitimer(signal.ITIMER_REAL, float(job.get("budget", 60)))
     try:
+        # last resort against an orphan spinning in native code after the parent was killed (CPU seconds)
+        import resource
+        lim = int(float(job.get("budget", 60)) * 2 + 30)
+        resource.setrlimit(resource.RLIMIT_CPU, (lim, lim + 5))
+    except Exception:
+        pass
+    try:
         import isla
         if not os.path.abspath(isla.__file__).startswith(os.path.abspath(src) + os.sep):
             end[0] = "harness:isla_from_" + isla.__file__
